@@ -513,12 +513,14 @@ class Textgrid:
     def renameTier(self, oldName: str, newName: str) -> None:
         oldTier = self.getTier(oldName)
         tierIndex = self.tierNames.index(oldName)
+        span = (self.minTimestamp, self.maxTimestamp)
         self.removeTier(oldName)
         try:
             self.addTier(oldTier.new(newName, oldTier.entries), tierIndex)
         except Exception:
             # A failed rename (e.g. the name is taken) must not lose the tier
             self.addTier(oldTier, tierIndex, constants.ErrorReportingMode.SILENCE)
+            self.minTimestamp, self.maxTimestamp = span
             raise
 
     def removeTier(self, name: str) -> textgrid_tier.TextgridTier:
@@ -531,12 +533,14 @@ class Textgrid:
         reportingMode: Literal["silence", "warning", "error"] = "warning",
     ) -> None:
         tierIndex = self.tierNames.index(name)
+        span = (self.minTimestamp, self.maxTimestamp)
         oldTier = self.removeTier(name)
         try:
             self.addTier(newTier, tierIndex, reportingMode)
         except Exception:
             # A failed replacement must not lose the original tier
             self.addTier(oldTier, tierIndex, constants.ErrorReportingMode.SILENCE)
+            self.minTimestamp, self.maxTimestamp = span
             raise
 
     def validate(
